@@ -419,3 +419,112 @@ Definition c05_bobj_step (cm : c05_comm) (op : c05_bop) : c05_comm :=
   end.
 Definition c05_bobj_init : c05_comm := {| c05_cm_ifs := []; c05_cm_info := []; c05_cm_b0 := 0; c05_cm_b1 := 0 |}.
 Definition c05_bobj_run (ops : list c05_bop) : c05_comm := fold_left c05_bobj_step ops c05_bobj_init.
+
+(* ------------------------------------------------------------------ round 6: the communicator every object carries
+   An MPI communicator is the list of its processes in rank order (rank r of the communicator is process `nth r`);
+   None = MPI_COMM_NULL.  Two communicators over the same processes with another rank order (MPI_Comm_split with another
+   key) are different lists.  The neighbour numbers stored in an interface are RANKS of the communicator of the
+   RemoteIndices it was built from; which PROCESS a message reaches is decided by the communicator the Irecv/Issend calls
+   are given, i.e. by the communicator_ member of the object that communicates. *)
+Definition c05_mpicomm := option (list nat).
+Definition c05_comm_eqb (a b : c05_mpicomm) : bool :=
+  match a, b with
+  | None, None => true
+  | Some x, Some y => c05_list_eqb x y
+  | _, _ => false
+  end.
+
+(* Interface = (communicator_, interfaces_).
+     Interface(MPI_Comm comm) : communicator_(comm), interfaces_()        Interface() : communicator_(MPI_COMM_NULL), interfaces_()
+     build(remoteIndices, ..)  : FIRST statement "communicator_=remoteIndices.communicator();" (unconditional, before the
+                                 assert(interfaces_.empty())), then the two buildInterface passes and strip()
+     free(), strip()           : do not touch communicator_ *)
+Record c05_icobj := { c05_ic_comm : c05_mpicomm; c05_ic_ifs : option c05_imap }.
+Definition c05_icobj_init (comm : c05_mpicomm) : c05_icobj := {| c05_ic_comm := comm; c05_ic_ifs := Some [] |}.
+Inductive c05_icop :=
+| C05_ICBuild (src dst : c05_flagset) (rm : c05_rmap) (ricomm : c05_mpicomm)     (* ricomm = remoteIndices.communicator() *)
+| C05_ICFree | C05_ICStrip.
+Definition c05_icobj_step (o : c05_icobj) (op : c05_icop) : c05_icobj :=
+  match op with
+  | C05_ICBuild src dst rm ricomm =>
+      {| c05_ic_comm := ricomm; c05_ic_ifs := c05_iobj_step (c05_ic_ifs o) (C05_IBuild src dst rm) |}
+  | C05_ICFree => {| c05_ic_comm := c05_ic_comm o; c05_ic_ifs := c05_iobj_step (c05_ic_ifs o) C05_IFree |}
+  | C05_ICStrip => {| c05_ic_comm := c05_ic_comm o; c05_ic_ifs := c05_iobj_step (c05_ic_ifs o) C05_IStrip |}
+  end.
+Definition c05_icobj_run (comm0 : c05_mpicomm) (ops : list c05_icop) : c05_icobj :=
+  fold_left c05_icobj_step ops (c05_icobj_init comm0).
+Definition c05_ic_map (o : c05_icobj) : c05_imap := match c05_ic_ifs o with Some m => m | None => [] end.
+
+(* BufferedCommunicator = (communicator_, the state of c05_bobj_step).  The constructor leaves communicator_ indeterminate
+   (None here; it is never read before a build()).  Both build() overloads: "free(); interfaces_=interface.interfaces();
+   communicator_=interface.communicator();"; free() and forward()/backward() do not touch communicator_;
+   sendRecv passes communicator_ to all four MPI_Irecv/MPI_Issend calls. *)
+Record c05_bcobj := { c05_bc_comm : c05_mpicomm; c05_bc_cm : c05_comm }.
+Definition c05_bcobj_init : c05_bcobj := {| c05_bc_comm := None; c05_bc_cm := c05_bobj_init |}.
+Inductive c05_bcop := C05_BCBuild (szs szd : nat -> nat) (interface : c05_icobj) | C05_BCFree | C05_BCCommunicate.
+Definition c05_bcobj_step (o : c05_bcobj) (op : c05_bcop) : c05_bcobj :=
+  match op with
+  | C05_BCBuild szs szd i =>
+      {| c05_bc_comm := c05_ic_comm i; c05_bc_cm := c05_bobj_step (c05_bc_cm o) (C05_BBuild szs szd (c05_ic_map i)) |}
+  | C05_BCFree => {| c05_bc_comm := c05_bc_comm o; c05_bc_cm := c05_bobj_step (c05_bc_cm o) C05_BFree |}
+  | C05_BCCommunicate => {| c05_bc_comm := c05_bc_comm o; c05_bc_cm := c05_bobj_step (c05_bc_cm o) C05_BCommunicate |}
+  end.
+Definition c05_bcobj_run (ops : list c05_bcop) : c05_bcobj := fold_left c05_bcobj_step ops c05_bcobj_init.
+
+(* DatatypeCommunicator = (remoteIndices_, messageTypes).  build(): "remoteIndices_ = &remoteIndices; free(); createDataTypes..;
+   createRequests.." ; every MPI_Recv_init/MPI_Ssend_init is given remoteIndices_->communicator(); free() clears
+   messageTypes and leaves remoteIndices_ alone.  dc_types = None: an assert of the datatype builder failed. *)
+Record c05_dcobj := { c05_dc_comm : c05_mpicomm; c05_dc_types : option c05_dtypes }.
+Definition c05_dcobj_init : c05_dcobj := {| c05_dc_comm := None; c05_dc_types := Some [] |}.
+Inductive c05_dcop :=
+| C05_DCBuild (src dst : c05_flagset) (rm : c05_rmap) (ricomm : c05_mpicomm) (sd rd : c05_data) | C05_DCFree | C05_DCCommunicate.
+Definition c05_dcobj_step (o : c05_dcobj) (op : c05_dcop) : c05_dcobj :=
+  match op with
+  | C05_DCBuild src dst rm ricomm sd rd => {| c05_dc_comm := ricomm; c05_dc_types := c05_dt_build src dst rm sd rd |}
+  | C05_DCFree => {| c05_dc_comm := c05_dc_comm o; c05_dc_types := Some [] |}
+  | C05_DCCommunicate => o
+  end.
+Definition c05_dcobj_run (ops : list c05_dcop) : c05_dcobj := fold_left c05_dcobj_step ops c05_dcobj_init.
+
+(* rank of process x in a communicator (length of the list if x is not a member) *)
+Fixpoint c05_rank_in (x : nat) (g : list nat) : nat :=
+  match g with
+  | [] => 0
+  | y :: t => if x =? y then 0 else S (c05_rank_in x t)
+  end.
+(* xs is numbered by the ranks of communicator `from`; the result is numbered by the ranks of communicator `to`:
+   entry u is what the process that has rank u in `to` holds *)
+Definition c05_reindex {A} (to from : list nat) (d : A) (xs : list A) : list A :=
+  map (fun u => nth (c05_rank_in (nth u to 0) from) xs d) (seq 0 (length to)).
+
+(* One communication phase when every process hands the communicator `used` to MPI while its interface (neighbour numbers,
+   message sizes) and the per-rank inputs are numbered by the ranks of `built`, the communicator of the RemoteIndices:
+   the rank-level phase runs in the numbering of `used` (rank q there is the process nth q used, whatever number it has
+   in `built`); the results are reported per rank of `built`. *)
+Definition c05_phase_on (used built : list nat) (add fwd : bool) (cms : list c05_comm) (gdata sdata : list c05_data)
+           (orders : list (list nat)) : list c05_result :=
+  c05_reindex built used C05_BadOrder
+    (c05_phase add fwd (c05_reindex used built c05_bobj_init cms) (c05_reindex used built [] gdata)
+               (c05_reindex used built [] sdata) (c05_reindex used built [] orders)).
+
+(* the phase as the OBJECTS run it: all processes must hand MPI the same communicator (otherwise, or with MPI_COMM_NULL,
+   nothing is ever matched) *)
+Definition c05_phase_objs (built : list nat) (add fwd : bool) (objs : list c05_bcobj) (gdata sdata : list c05_data)
+           (orders : list (list nat)) : list c05_result :=
+  match objs with
+  | [] => []
+  | o :: _ =>
+      match c05_bc_comm o with
+      | Some used =>
+          if forallb (fun o' => c05_comm_eqb (c05_bc_comm o') (Some used)) objs && (length used =? length built)
+          then c05_phase_on used built add fwd (map c05_bc_cm objs) gdata sdata orders
+          else map (fun _ => C05_Stuck) objs
+      | None => map (fun _ => C05_Stuck) objs
+      end
+  end.
+(* the same for DatatypeCommunicator (containers only) *)
+Definition c05_dt_phase_on (used built : list nat) (fwd : bool) (types : list c05_dtypes) (gdata sdata : list c05_data)
+           (orders : list (list nat)) : list c05_data :=
+  c05_reindex built used []
+    (c05_dt_phase fwd (c05_reindex used built [] types) (c05_reindex used built [] gdata)
+                  (c05_reindex used built [] sdata) (c05_reindex used built [] orders)).
